@@ -27,6 +27,7 @@ CONSTANTS
   Depth = 0
   AttBound = 2
   ViewKeep = {"pub", "done"}
+  RealBackoff = FALSE
   GenBFS = FALSE
   AckAll = TRUE
   Weights <- mcWeights
